@@ -274,7 +274,8 @@ class InvariantDecoInit(_ContractDecoratorInit):
         en = c.a["enabled"].t
         k = attr(c.post, c.ref("self"), "_invariant")
         return super().ensures_ret(c, v) + [("enabled_rejects_foreign_mandatory_arguments", z3.Implies(en, z3.Not(self.bad_args(c)))),
-                                            ("stores_check_on", z3.Implies(en, attr(c.post, k, "check_on") == c.ref("check_on")))]
+                                            ("stores_check_on", z3.Implies(en, attr(c.post, k, "check_on") == c.ref("check_on"))),
+                                            ("the_contract_is_an_Invariant", z3.Implies(en, ISINST(k, clsref("Invariant"))))]
 
     def ensures_raise(self, c, e):
         en = c.a["enabled"].t
